@@ -2,6 +2,7 @@
 from engine import rule, AnchorLost
 from model import Super, fn_of, trace, is_place, site, const_value, uses_of_local
 import common
+import cfgbound
 
 REQUIRED_DEPTH = 1024  # the property pins: 1023 collections around a scalar accepted, deeper rejected
 
@@ -70,7 +71,10 @@ def _sccs(lib):
             for key in ("resolved", "def"):
                 d = f.get(key)
                 if d in lib.by_id:
-                    tg.add(_root_of(lib, lib.by_id[d]).id)
+                    # running a closure written in this very function is not a call of the function (what the closure
+                    # calls is already counted as the function's own calls)
+                    if not (lib.by_id[d].raw["def_kind"] == "Closure" and _root_of(lib, lib.by_id[d]).id == _root_of(lib, b).id):
+                        tg.add(_root_of(lib, lib.by_id[d]).id)
                     break
     index = {}
     low = {}
@@ -122,6 +126,15 @@ def r18_1(ctx):
             if f.get("name") == "set_max_depth" and f.get("crate") == "rmp_serde":
                 n += 1
                 d, v = _named_const(b, t["args"][1])
+                if v is None:
+                    # an adjustable limit: the built-in default must be the documented limit, and what a caller can
+                    # set must stay within it
+                    alts = cfgbound.alternatives(lib, b, t["args"][1])
+                    okc = cfgbound.is_limit(alts, REQUIRED_DEPTH)
+                    seen.add(("configurable", REQUIRED_DEPTH) if okc else (None, None))
+                    ctx.ob(f"set_max_depth:{b.name}:{k}", okc, site(b, bb), f"limit comes from {cfgbound.describe(alts)}: " + ("every built-in source is the documented limit and every caller-chosen one stays within it" if okc else f"not (exactly {REQUIRED_DEPTH} by default, at most {REQUIRED_DEPTH} when set)"))
+                    k += 1
+                    continue
                 seen.add((d, v))
                 ctx.ob(f"set_max_depth:{b.name}:{k}", v == REQUIRED_DEPTH and d is not None, site(b, bb), f"limit = {d} = {v}")
                 k += 1
@@ -140,9 +153,17 @@ def r18_1(ctx):
                     bp = _budget_param(lib, comp)
                     if r in bp:
                         d, v = _named_const(b, t["args"][bp[r] - 1])
+                        if v is None:
+                            alts = cfgbound.alternatives(lib, b, t["args"][bp[r] - 1])
+                            okc = cfgbound.is_limit(alts, REQUIRED_DEPTH)
+                            seen.add(("configurable", REQUIRED_DEPTH) if okc else (None, None))
+                            ctx.ob(f"calculator-budget:{b.name}", okc, site(b, bb), f"initial budget comes from {cfgbound.describe(alts)}: " + ("every built-in source is the documented limit and every caller-chosen one stays within it" if okc else f"not (exactly {REQUIRED_DEPTH} by default, at most {REQUIRED_DEPTH} when set)"))
+                            continue
                         seen.add((d, v))
                         ctx.ob(f"calculator-budget:{b.name}", v == REQUIRED_DEPTH and d is not None, site(b, bb), f"initial budget = {d} = {v}")
-    ctx.ob("single-constant", len(seen) == 1, "lib", f"depth constants in use: {sorted(map(str, seen))}")
+    # (an adjustable limit whose sources were all checked against the documented value counts as that value)
+    vals = {v for _, v in seen}
+    ctx.ob("single-constant", len(vals) == 1 and len({d for d, _ in seen if d != "configurable"}) <= 1, "lib", f"depth constants in use: {sorted(map(str, seen))}")
 
 
 @rule("R18.2", 3, "every rmp_serde::Deserializer is configured with set_max_depth before its first use", ["C18"])
@@ -564,6 +585,7 @@ def r18_3(ctx):
         # initial budget from the external call
         k0 = None
         ext = set()
+        adjustable = []
         for b in lib.bodies:
             if _root_of(lib, b).id in comp:
                 continue
@@ -573,6 +595,23 @@ def r18_3(ctx):
                 if r in comp:
                     ext.add(r)
                     _, v = _named_const(b, t["args"][bp[r] - 1])
+                    if v is None:
+                        # an adjustable budget: its built-in default is the documented limit and a caller's choice stays
+                        # within it (R18.1 reports the sources); the arithmetic below is done for the default, and the
+                        # parser must be given the very same value, whatever it is
+                        alts = cfgbound.alternatives(lib, b, t["args"][bp[r] - 1])
+                        if cfgbound.is_limit(alts, REQUIRED_DEPTH):
+                            v = REQUIRED_DEPTH
+                            bt = trace(b, t["args"][bp[r] - 1])
+                            same = True
+                            n_set = 0
+                            for sb, st in b.calls():
+                                sf = fn_of(st) or {}
+                                if sf.get("name") == "set_max_depth" and sf.get("crate") == "rmp_serde":
+                                    n_set += 1
+                                    stt = trace(b, st["args"][1])
+                                    same = same and bool(stt.origin and bt.origin and stt.origin[0] == bt.origin[0] and stt.origin[1] == bt.origin[1] and [x for x in stt.steps if x[0] != "use"] == [x for x in bt.steps if x[0] != "use"])
+                            adjustable.append((b, bb, same and n_set >= 1))
                     k0 = v if k0 is None else min(k0, v) if isinstance(v, int) else k0
         # levels are counted from the function the outside world calls with the full budget: the (real or derived)
         # entry test of that function is the one whose threshold says at which nesting depth a value is refused
@@ -581,6 +620,8 @@ def r18_3(ctx):
         if not isinstance(k0, int):
             ctx.ob(f"{name}:initial-budget-constant", False, comp[0], "the initial budget is not a compile-time constant")
             continue
+        for ab, abb, same in adjustable:
+            ctx.ob(f"{name}:adjustable-budget-is-the-parser's-limit:{ab.name}", same, site(ab, abb), "the adjustable budget handed to the calculator is the very value handed to rmp_serde's set_max_depth in this function" if same else "the calculator's adjustable budget and rmp_serde's set_max_depth limit are different values: slice and reader input can be judged by different limits")
         # value with n enclosing collections has budget k0 - n*d; the test fires when budget <= thr (Lt/Le) or == thr (Eq)
         if op == "Eq":
             fires_ok = (k0 - thr) % dmax == 0 and dmin == dmax
@@ -597,6 +638,8 @@ def r18_3(ctx):
                 f = fn_of(t) or {}
                 if f.get("name") == "set_max_depth" and f.get("crate") == "rmp_serde":
                     _, v = _named_const(b, t["args"][1])
+                    if v is None and cfgbound.is_limit(cfgbound.alternatives(lib, b, t["args"][1]), REQUIRED_DEPTH):
+                        v = REQUIRED_DEPTH
                     if isinstance(v, int):
                         kvals.append(v)
         krmp = max(kvals) if kvals else REQUIRED_DEPTH
